@@ -409,6 +409,14 @@ class Gen:
                     s.initial_attr = [rng.choice(d).id]
                 elif r < 0.6 and s.kind != 'scxml':
                     s.initial_elem = ([rng.choice(s.states()).id], g.racts('I', proper))
+                elif r < 0.68 and 'initial-multi' not in g.avoid:
+                    # several (deep) initial targets in different regions of a parallel below s
+                    d = [q for q in proper if is_descendant(q, s)]
+                    rng.shuffle(d)
+                    for a in d:
+                        more = [b for b in d if b is not a and not is_descendant(a, b) and not is_descendant(b, a) and legal_target_set(ch, [a.id, b.id])]
+                        if more:
+                            s.initial_attr = [a.id, rng.choice(more).id]; break
             if s.kind in ('state', 'parallel'):
                 for _ in range(rng.choice([0, 1, 1, 2, 2, 3])):
                     r = rng.random()
